@@ -81,10 +81,9 @@ def match_known(known, prop, failure):
 def run_pyvc(prop, tier, jobs):
     from pyvc.run import run_modules
 
-    mods = PROPERTY_MAP[prop].get("pyvc", [])
-    if not mods:
-        return []
-    return run_modules(mods, props=[prop], jobs=jobs)
+    from contracts.property_map import PYVC_MODULES
+
+    return run_modules(PYVC_MODULES, props=[prop], jobs=jobs)
 
 
 def run_frames(prop, tier):
@@ -343,8 +342,9 @@ def write_baseline():
     /verif on the unchanged tree, committed)."""
     from pyvc.run import run_modules
 
-    mods = sorted({m for pm in PROPERTY_MAP.values() for m in pm.get("pyvc", [])})
-    recs = run_modules(mods, jobs=12)
+    from contracts.property_map import PYVC_MODULES
+
+    recs = run_modules(PYVC_MODULES, jobs=12)
     out = {}
     for r in recs:
         out[r["task"]] = {o["name"]: o["status"] for o in r["obligations"]}
